@@ -4,8 +4,8 @@
     after (k copies of v, then xs) equals the output after xs alone; with
     xs = [] and x = v this is "constant input gives constant output". *)
 From Yata Require Import Base.Prelude Base.Num Base.NumR Core.Window Core.Candle
-  Spec.Hist Spec.MethodDefs Methods.Basic Proofs.MethodsCommon Proofs.Windowed Proofs.Windowed2
-  Proofs.Windowed3 Proofs.Windowed4 Proofs.Windowed5 Proofs.Windowed6 Proofs.Recursive Proofs.Prehistory.
+  Spec.Hist Spec.MethodDefs Spec.IndicatorDefs Methods.Basic Methods.Select Proofs.MethodsCommon Proofs.Windowed Proofs.Windowed2
+  Proofs.Windowed3 Proofs.Windowed4 Proofs.Windowed5 Proofs.Windowed6 Proofs.Recursive Proofs.Prehistory Proofs.Swma Proofs.Selection Proofs.Selection2 Proofs.LongRun.
 From Coq Require Import Reals.
 Open Scope Z_scope.
 
@@ -48,6 +48,17 @@ Theorem C08_linear_volatility : prefix_ok (linvol_new (N := NumR)) linvol_next 1
 Proof. intros n v k xs x. exact (prefix_invariant _ _ _ _ _ linvol_correct linvol_ext n v k xs x). Qed.
 Theorem C08_adi_windowed : prefix_ok (adi_new (N := NumR)) adi_next 1 (pmax - 1).
 Proof. intros n v k xs x. exact (prefix_invariant _ _ _ _ _ adi_correct adi_ext n v k xs x). Qed.
+
+Theorem C08_swma : prefix_ok (swma_new (N := NumR)) swma_next 1 (pmax - 1).
+Proof. intros n v k xs x. refine (prefix_invariant _ _ _ _ _ swma_correct _ n v k xs x). intros m h h' E. apply swma_local. intros i _. apply E. Qed.
+Theorem C08_highest : prefix_ok (hl_new (N := NumR)) highest_step 1 (pmax - 1).
+Proof. intros n v k xs x. refine (prefix_invariant _ _ _ _ _ highest_correct _ n v k xs x). intros m h h' E. unfold highest_def. rewrite (E O). f_equal. apply map_ext. intros i. apply E. Qed.
+Theorem C08_lowest : prefix_ok (hl_new (N := NumR)) lowest_step 1 (pmax - 1).
+Proof. intros n v k xs x. refine (prefix_invariant _ _ _ _ _ lowest_correct _ n v k xs x). intros m h h' E. unfold lowest_def. rewrite (E O). f_equal. apply map_ext. intros i. apply E. Qed.
+Theorem C08_highest_index : prefix_ok (hli_new (N := NumR)) highest_index_step 1 (pmax - 1).
+Proof. intros n v k xs x. refine (prefix_invariant _ _ (fun m h => highest_age m h) _ _ highest_index_correct _ n v k xs x). intros m h h' E. unfold highest_age. f_equal. apply argbest_ext. exact E. Qed.
+Theorem C08_lowest_index : prefix_ok (hli_new (N := NumR)) lowest_index_step 1 (pmax - 1).
+Proof. intros n v k xs x. refine (prefix_invariant _ _ (fun m h => lowest_age m h) _ _ lowest_index_correct _ n v k xs x). intros m h h' E. unfold lowest_age. f_equal. apply argbest_ext. exact E. Qed.
 
 (** EMA family / RMA: the recurrence started at v is at its fixed point on v *)
 Theorem C08_ema_family n (v : R) k rh :
